@@ -350,7 +350,9 @@ class ReservablePriorityReqFilterStore(FilterStore):
 
                   #reserving the item to preserved item order by adding the reserve_get event to a list(the index position of event= index position of reserved item)
                   self.reserved_events.append(event)
-                  break
+                  # tell _trigger_reserve_get to go on: the request that was blocking the queue
+                  # is served, the next one in line may be servable by another item
+                  return True
 
 
 
